@@ -139,6 +139,16 @@ fn maybe_fault(case: &mut Case, r: &mut Prng, per_mille: u32) {
         if n > 0 {
             let at = if r.chance(100, 1000) { 0 } else { r.below(n) };
             case.script.faults.push((at, Fault::Error(r.next_u64() >> 1)));
+            // now and then two or three refusals in one run (adjacent calls included): what the
+            // first one leaves behind meets the second
+            if at > 0 && n > 2 && r.chance(300, 1000) {
+                for _ in 0..1 + r.below(2) {
+                    let at2 = if r.chance(1, 2) { (at + 1).min(n - 1) } else { 1 + r.below(n - 1) };
+                    if !case.script.faults.iter().any(|f| f.0 == at2) {
+                        case.script.faults.push((at2, Fault::Error(r.next_u64() >> 1)));
+                    }
+                }
+            }
         }
     }
 }
